@@ -35,11 +35,13 @@ type stats struct {
 	Uncontrolled int    `json:"uncontrolled_selects"`
 	PkgVarYields int    `json:"pkg_var_yields"`
 	ClockVars    int    `json:"clock_vars_reinit"`
+	DenseYields  int    `json:"dense_yields"`
 	reinitFunc   string
 	pkgName      string
 }
 
 type rewriter struct {
+	noDense    int
 	fset       *token.FileSet
 	rel        string
 	syncName   string
@@ -377,7 +379,7 @@ func processFile(path, rel, module string, pkgVars map[string]bool, clockRound m
 		ast.Inspect(f, func(n ast.Node) bool {
 			if se, ok := n.(*ast.SelectorExpr); ok {
 				if id, ok := se.X.(*ast.Ident); ok && id.Name == rw.syncName && id.Obj == nil {
-					if se.Sel.Name == "Mutex" || se.Sel.Name == "RWMutex" {
+					if se.Sel.Name == "Mutex" || se.Sel.Name == "RWMutex" || se.Sel.Name == "Pool" {
 						se.X = ast.NewIdent(rtName)
 						rw.st.Mutexes++
 						rw.needRT = true
@@ -583,9 +585,46 @@ func (rw *rewriter) hasSyncOp(n ast.Node) bool {
 func (rw *rewriter) stmts(list []ast.Stmt) []ast.Stmt {
 	var out []ast.Stmt
 	for _, s := range list {
-		out = append(out, rw.stmt(s)...)
+		r := rw.stmt(s)
+		// R9: every other statement gets a "dense" scheduling point, which is a no-op
+		// unless the run asks for dense scheduling: then unsynchronised accesses to
+		// shared state (a read before the lock is taken, state that is transiently
+		// inconsistent inside somebody's critical section) can interleave as well,
+		// and the clock moves between any two statements
+		if len(r) > 0 && rw.noDense == 0 && rw.denseable(s) && !rw.isYield(r[0]) {
+			rw.st.DenseYields++
+			rw.needRT = true
+			r = append([]ast.Stmt{&ast.ExprStmt{X: rtCall("YieldDense", rw.point(s))}}, r...)
+		}
+		out = append(out, r...)
 	}
 	return out
+}
+
+func (rw *rewriter) denseable(s ast.Stmt) bool {
+	switch s.(type) {
+	case *ast.AssignStmt, *ast.ExprStmt, *ast.IncDecStmt, *ast.ReturnStmt, *ast.IfStmt, *ast.ForStmt, *ast.RangeStmt,
+		*ast.SwitchStmt, *ast.TypeSwitchStmt, *ast.DeferStmt, *ast.GoStmt, *ast.SendStmt, *ast.SelectStmt:
+		return true
+	}
+	return false
+}
+
+func (rw *rewriter) isYield(s ast.Stmt) bool {
+	es, ok := s.(*ast.ExprStmt)
+	if !ok {
+		return false
+	}
+	c, ok := es.X.(*ast.CallExpr)
+	if !ok {
+		return false
+	}
+	se, ok := c.Fun.(*ast.SelectorExpr)
+	if !ok {
+		return false
+	}
+	id, ok := se.X.(*ast.Ident)
+	return ok && id.Name == rtName && (se.Sel.Name == "Yield" || se.Sel.Name == "YieldDense")
 }
 
 func (rw *rewriter) block(b *ast.BlockStmt) {
@@ -650,7 +689,12 @@ func (rw *rewriter) stmt(s ast.Stmt) []ast.Stmt {
 	case *ast.RangeStmt:
 		pre := rw.hasSyncOp(x.X)
 		x.X = rw.expr(x.X)
+		// no dense scheduling points inside range bodies: the operand may be a map (the
+		// rewriter is purely syntactic), and the order in which a map is walked is
+		// random - the sequence of points passed would differ from run to run
+		rw.noDense++
 		rw.block(x.Body)
+		rw.noDense--
 		if pre {
 			return []ast.Stmt{rw.yield(x), x}
 		}
